@@ -96,3 +96,7 @@ impl VxAsDeref for Option<String> {
     fn vx_as_deref(&self) -> (r: Option<&str>) { self.as_deref() }
 }
 }
+verus! {
+pub assume_specification<T: Copy> [Option::<&T>::copied](o: Option<&T>) -> (r: Option<T>)
+    ensures r == (match o { Some(x) => Some(*x), None => None });
+}
